@@ -152,6 +152,10 @@ func registerStringStubs() {
 			}
 			return out
 		case symstr:
+			if isBStr(s) {
+				// a string with symbolic bytes: the real library code runs on it
+				return callSSAbody(i, fr.caller, fn, args, nil)
+			}
 			return i.symFields(s)
 		}
 		panic("strings.Fields: bad argument")
@@ -170,6 +174,9 @@ func registerStringStubs() {
 			}
 			return out
 		case symstr:
+			if isBStr(s) {
+				return callSSAbody(i, fr.caller, fn, args, nil)
+			}
 			return i.symSplit(s, sep)
 		}
 		panic("strings.Split: bad argument")
@@ -185,6 +192,9 @@ func registerStringStubs() {
 			}
 			return tuple{v, zero(errT)}
 		case symstr:
+			if isBStr(s) {
+				return callSSAbody(i, fr.caller, fn, args, nil)
+			}
 			if bits == 0 {
 				bits = 64
 			}
